@@ -41,8 +41,11 @@ type unit struct {
 	Shallow bool   `json:"shallow,omitempty"`
 	Exact   bool   `json:"exact,omitempty"`
 	// phase 2: the image written by Ops (code = 2*kind + sync, tickCode = rotation tick), then every damage
-	Ops  []int   `json:"ops,omitempty"`
-	Cost float64 `json:"cost"`
+	// Slices > 1: this unit handles only the byte offsets with offset % Slices == Slice (large images)
+	Ops    []int   `json:"ops,omitempty"`
+	Slice  int     `json:"slice,omitempty"`
+	Slices int     `json:"slices,omitempty"`
+	Cost   float64 `json:"cost"`
 }
 
 type violRec struct {
@@ -601,21 +604,28 @@ func runImage(u unit, c *collector) {
 		catch(func() { closeWAL(w) })
 		return
 	}
-	c.st["write_events"] += len(ops)
 	closeWAL(w)
 	names, files := readGroup(path)
 	L.setFiles(names, files)
 	L.index()
-	c.st["images"]++
-	c.st["image_files"] += len(files)
-	c.st["image_bytes"] += len(want)
-	if len(files) > 1 {
-		c.st["images_multi_file"]++
+	slices, slice := u.Slices, u.Slice
+	if slices < 1 {
+		slices, slice = 1, 0
 	}
-	if !L.aligned {
-		c.st["images_with_record_split_across_files"]++
+	first := slice == 0
+	if first {
+		c.st["write_events"] += len(ops)
+		c.st["images"]++
+		c.st["image_files"] += len(files)
+		c.st["image_bytes"] += len(want)
+		if len(files) > 1 {
+			c.st["images_multi_file"]++
+		}
+		if !L.aligned {
+			c.st["images_with_record_split_across_files"]++
+		}
+		c.state(fmt.Sprint(ops))
 	}
-	c.state(fmt.Sprint(ops))
 	if !bytes.Equal(L.stream(), want) {
 		c.add([]viol{{"writer:log-bytes-differ-from-the-framed-written-records", fmt.Sprintf("files hold %d bytes, the written records frame to %d bytes (first difference at %d)", len(L.stream()), len(want), firstDiff(L.stream(), want))}}, base, replay("-"))
 		return
@@ -629,9 +639,11 @@ func runImage(u unit, c *collector) {
 	if g := w2.Group(); g.MaxIndex()-g.MinIndex()+1 != len(files) {
 		fatal("group sees indexes %d..%d, directory has %d files", g.MinIndex(), g.MaxIndex(), len(files))
 	}
-	vs := evalImage(w2, L, damage{class: "undamaged", none: true, p: len(L.recs), desc: "undamaged"}, heights, c.st)
-	c.add(vs, base, replay("none"))
-	c.st["evaluations"]++
+	if first {
+		vs := evalImage(w2, L, damage{class: "undamaged", none: true, p: len(L.recs), desc: "undamaged"}, heights, c.st)
+		c.add(vs, base, replay("none"))
+		c.st["evaluations"]++
+	}
 	// damaged variants: probe the written markers and the first unwritten height
 	dh := heights[1:]
 	ord := int64(0)
@@ -645,6 +657,10 @@ func runImage(u unit, c *collector) {
 		last := L.bounds[k+1] >= L.bounds[len(files)]
 		// single-byte alterations
 		for off := range orig {
+			if off%slices != slice {
+				ord += 4
+				continue
+			}
 			so := L.bounds[k] + off
 			ri, field := L.fieldAt(so)
 			for _, v := range replacements(orig[off]) {
@@ -669,6 +685,9 @@ func runImage(u unit, c *collector) {
 		// truncations, longest first; the file is rewritten afterwards
 		for off := len(orig) - 1; off >= 0; off-- {
 			ord++
+			if off%slices != slice {
+				continue
+			}
 			if err := fd.Truncate(int64(off)); err != nil {
 				fatal("truncate: %v", err)
 			}
